@@ -230,6 +230,9 @@ def readBodies (file : Bytes) : List Smp → Nat → Option (List Smp)
     else
       let n := m.len * frameBytes m.flg
       if m.len ≥ 4 ∧ ((file.drop (pos + 4)).take 4 = str "OggS") then none
+      -- `is_ogg_sample` probes 8 bytes; when fewer remain the stream is left at EOF and the sample is
+      -- dropped (finding: a final sample of 4..7 bytes is lost) : not modelled
+      else if m.len ≥ 4 ∧ pos + 8 > file.length then none
       else if pos + n > file.length then none
       else
         let (lps, lpe, flg) := loopSanity m.len m.lps m.lpe m.flg
@@ -296,7 +299,8 @@ def read (bs : Bytes) : Option Module := do
   if songlen > 256 ∨ npat > 256 ∨ nins > 255 ∨ chn > 64 then none
   if (tempo ≥ 32 ∨ bpm < 32 ∨ bpm > 1000) ∧ (bs.drop 38).take 6 ≠ str "MED2XM" then none
   if (bs.drop 38).take 6 = str "MED2XM" then none          -- MED2XM tempo rewriting: not modelled
-  if hsz < 20 ∨ hsz > 276 then none
+  if hsz ≤ 20 ∨ hsz > 276 then none
+  if chn = 0 then none
   let olen := hsz - 20
   if 80 + olen > bs.length then none
   if version ≤ 0x0103 then none                             -- old layout: not modelled
@@ -307,5 +311,68 @@ def read (bs : Bytes) : Option Module := do
   some { name := adjustString (cstr ((bs.drop 17).take 20)), chn := chn, orders := fixOrders pat ords,
          pats := pats ++ [{ rows := 64, cells := List.replicate (64 * chn) {} }],
          ins := ins, smps := smps.map obsLoop, spd := fixSpd tempo, bpm := fixBpm bpm }
+
+/-! ## well-formed XM songs -/
+
+def PatOk (chn : Nat) (p : Pat) : Prop :=
+  1 ≤ p.rows ∧ p.rows ≤ 256 ∧ p.rows * chn * 6 ≤ 65535 ∧ p.cells.length = p.rows * chn ∧ ∀ c ∈ p.cells, CellOk c
+instance (chn : Nat) (p : Pat) : Decidable (PatOk chn p) := by unfold PatOk; infer_instance
+
+def SubOk (sid : Nat) (sub : Sub) : Prop :=
+  sub.sid = sid ∧ sub.vol ≤ 64 ∧ sub.pan < 256 ∧ -128 ≤ sub.xpo ∧ sub.xpo ≤ 127 ∧ -128 ≤ sub.fin ∧ sub.fin ≤ 127
+instance (sid : Nat) (sub : Sub) : Decidable (SubOk sid sub) := by unfold SubOk; infer_instance
+
+def SubsOk : Nat → List Sub → Prop
+  | _, [] => True
+  | sid, x :: xs => SubOk sid x ∧ SubsOk (sid + 1) xs
+instance : (sid : Nat) → (l : List Sub) → Decidable (SubsOk sid l)
+  | _, [] => isTrue trivial
+  | sid, x :: xs => by unfold SubsOk; have := instDecidableSubsOk (sid + 1) xs; infer_instance
+
+/-- instruments own consecutive sample numbers; key map inside the instrument's samples -/
+def InsOk (sid : Nat) (x : Ins) : Prop :=
+  NameOk 22 x.name ∧ x.subs.length ≤ 32 ∧ SubsOk sid x.subs ∧
+  (if x.subs = [] then x.keymap = []
+   else x.keymap.length = 121 ∧ (∀ k ∈ x.keymap.take 12, k = 0) ∧ (∀ k ∈ x.keymap.drop 108, k = 0) ∧
+        ∀ k ∈ (x.keymap.drop 12).take 96, k < x.subs.length)
+instance (sid : Nat) (x : Ins) : Decidable (InsOk sid x) := by unfold InsOk; infer_instance
+
+def InssOk : Nat → List Ins → Prop
+  | _, [] => True
+  | sid, x :: xs => InsOk sid x ∧ InssOk (sid + x.subs.length) xs
+instance : (sid : Nat) → (l : List Ins) → Decidable (InssOk sid l)
+  | _, [] => isTrue trivial
+  | sid, x :: xs => by unfold InssOk; have := instDecidableInssOk (sid + x.subs.length) xs; infer_instance
+
+def SmpOk (m : Smp) : Prop :=
+  NameOk 22 m.name ∧ m.sus = 0 ∧ m.sue = 0 ∧ m.flg &&& (F16BIT ||| FLOOP ||| FBIDIR ||| FSTEREO) = m.flg ∧
+  (m.flg &&& FBIDIR ≠ 0 → m.flg &&& FLOOP ≠ 0) ∧ m.len ≤ 0x100000 ∧ m.pcm.length = m.len * frameBytes m.flg ∧
+  (if m.flg &&& FLOOP ≠ 0 then m.lps < m.lpe ∧ m.lpe ≤ m.len else m.lps = 0 ∧ m.lpe = 0) ∧
+  ((storePcm m.flg m.len m.pcm).drop 4).take 4 ≠ str "OggS"
+instance (m : Smp) : Decidable (SmpOk m) := by unfold SmpOk; infer_instance
+
+/-- every sample of at least 4 frames is followed by at least 8 more file bytes (its own included) -/
+def tailOk : List Smp → Bool
+  | [] => true
+  | m :: ms => (decide (m.len < 4) || decide (((m :: ms).map fun x => x.len * frameBytes x.flg).sum ≥ 8)) && tailOk ms
+
+/-- the two excluded regions (genuine loader defects, see `C19_xm_counterexample_*`): the file must not end
+in an empty instrument with the 29-byte header that carries a name, nor in a sample of 4..7 bytes -/
+def EndOk (s : Module) (o : Opts) : Prop :=
+  match s.ins.getLast? with
+  | none => True
+  | some x => (x.subs = [] → o.emptyInsSize = 29 → x.name = []) ∧ tailOk (insSmps s.smps x) = true
+instance (s : Module) (o : Opts) : Decidable (EndOk s o) := by
+  unfold EndOk; split <;> infer_instance
+
+def WellFormed (s : Module) (o : Opts) : Prop :=
+  EndOk s o ∧ NameOk 20 s.name ∧ o.tracker.take 6 ≠ str "MED2XM" ∧ (1 ≤ s.chn ∧ s.chn ≤ 64) ∧
+  (1 ≤ s.orders.length ∧ s.orders.length ≤ 256) ∧ (∀ x ∈ s.orders, x.toNat < s.pats.length) ∧
+  s.pats.length ≤ 256 ∧ (∀ p ∈ s.pats, PatOk s.chn p) ∧ s.ins.length ≤ 255 ∧ InssOk 0 s.ins ∧
+  s.smps.length = (s.ins.map (·.subs.length)).sum ∧ (∀ m ∈ s.smps, SmpOk m) ∧
+  (1 ≤ s.spd ∧ s.spd ≤ 31) ∧ (32 ≤ s.bpm ∧ s.bpm ≤ 1000) ∧
+  (o.emptyInsSize = 29 ∨ o.emptyInsSize = 33 ∨ o.emptyInsSize = 263) ∧ o.restart < 65536 ∧ o.flags < 65536
+
+instance (s : Module) (o : Opts) : Decidable (WellFormed s o) := by unfold WellFormed; infer_instance
 
 end Xmp.Fmt.Xm
